@@ -205,6 +205,33 @@ def build():
                      [("shorter-fails", U + [sheet(to) != sheet(h), z3.Not(uniq_doc)],
                        z3.Exists([r], z3.And(r != to, res_T(tname(to), r))))]))
 
+
+    # ------------------------------------------------------------------ _initialize_table_data: uniqueness is decided over ALL tables of the document
+    def itd_entry(ex):
+        names = PObj("AllTableNamesOfTheDocument", {})
+        model = PObj("ModelN", {"g_names": names})
+        return {"self": PObj("CellRangeN", {"model": model, "_table_names": None}), "g_names": names}
+    ctx.method_models[("ModelN", "table_names")] = lambda ex, o, a, k, l: o.fields["g_names"]
+
+    def unique_map(ex, env):
+        src = env["self"].fields.get("_table_names")
+        ex.oblige("uniqueness-counted-over-every-table-of-the-document", z3.BoolVal(src is ex.entry_env["g_names"]), "ghost", 0)
+        return PObj("UniqueMap", {"source": src})
+
+    def itd_post(ex, env):
+        f = env["self"].fields
+        ok = f.get("_table_names") is env["g_names"] and isinstance(f.get("table_name_unique"), PObj) and f["table_name_unique"].fields["source"] is env["g_names"]
+        return z3.BoolVal(ok)
+    itd_post.__name__ = ("table_name_unique maps each table name of the WHOLE document (model.table_names()) to 'occurs exactly once in that list': the "
+                         "'T::' qualification is chosen only when no other table of the document has the name (hypothesis of lemma RESOLVE-T)")
+    plan.target(Contract("xrefs:CellRange._initialize_table_data", entry=itd_entry, ensures=[itd_post], safety="fork",
+                         opaque={"{name: self._table_names.count(name) == 1 for name in self._table_names}": unique_map}))
+
+    # header labels are cached: Table.write must invalidate the cache exactly for writes into the header area (C12's Table.write contract, re-verified)
+    from contracts import C12
+    p12 = C12.build()
+    plan.import_targets(p12, lambda c: c.qual == "document:Table.write")
+
     plan.bounded.append(BoundedStandIn(
         "printed-references", "c09_refs.py", [], thorough_args=["--level", "2"],
         bound="8 (11) naming shapes of 1..3 sheets x 1..3 tables (unique / duplicated across sheets / shared with the host sheet) x "
